@@ -219,6 +219,18 @@ def run(ctx):
             ctx.report('instances-differ-from-report', f'{st.instances if st else 0} vs {counts[best]}', {'kind': 'std', 'n': n, 'tool': scen})
         if len(set(counts)) > 1:
             ctx.nontrivial(('std', k))
+        # the same pass object starts on the same file again later (next round of the main loop) when the counts per
+        # standard have changed: the choice is made afresh
+        bonus2 = {s_: ctx.rng.choice([0, 0, 1, 2, -1]) for s_ in STDS}
+        scen2 = {'std_bonus': bonus2}
+        setup(d, scen2)
+        st2 = p.new(str(d / 'a.c'))
+        counts2 = [max(0, n + bonus2[s_]) for s_ in STDS]
+        best2 = max(range(len(STDS)), key=lambda i: (counts2[i], i))
+        ctx.count()
+        if p.clang_delta_std != STDS[best2] or (st2.instances if st2 else 0) != counts2[best2]:
+            ctx.report('wrong-standard-chosen:second-start-on-the-same-file', f'second new() on the same file: counts {dict(zip(STDS, counts2))}: chose {p.clang_delta_std} with {st2.instances if st2 else 0} instances, expected {STDS[best2]}',
+                       {'kind': 'std', 'n': n, 'tool': scen, 'tool2': scen2})
         shutil.rmtree(d, ignore_errors=True)
     outs = ctx.model(lines)
     for sc, r, m, ln in zip(scens, reals, outs, lines):
